@@ -31,10 +31,11 @@ ASSUMPTIONS = [
     "child interpreters rebuild the pool from the same deterministic builders (vf/nodepool.py)",
 ]
 SEEDS = ["0", "1", "2", "random"]
+SEEDS_THOROUGH = ["0", "1", "2", "3", "4", "5", "6", "7", "random"]
 
 
 def bounds(tier):
-    return {"hash_seeds": SEEDS, "context_depth": 2, "history_length": 3}
+    return {"hash_seeds": SEEDS if tier == "quick" else SEEDS_THOROUGH, "context_depth": 2, "history_length": 3 if tier == "quick" else 4}
 
 
 def enumerate_cases(tier, seed):
@@ -42,9 +43,9 @@ def enumerate_cases(tier, seed):
     g, base = nodepool.base_nodes()
     cases = [{"what": "node", "label": label} for label, _ in base]
     cases.append({"what": "relations"})
-    for s in SEEDS:
+    for s in (SEEDS if tier == "quick" else SEEDS_THOROUGH):
         cases.append({"what": "child", "seed": s})
-    cases.append({"what": "histories"})
+    cases.append({"what": "histories", "maxlen": 3 if tier == "quick" else 4})
     return cases
 
 
@@ -267,7 +268,7 @@ def run_histories(case):
     try:
         for o in objs:
             dw = has_dw(o)
-            for L in (1, 2, 3):
+            for L in range(1, case.get("maxlen", 3) + 1):
                 for seq in itertools.product(OPS, repeat=L):
                     cur = o
                     n += 1
